@@ -1,25 +1,28 @@
-"""Fault injection at instants where CPython can really deliver an asynchronous exception (DESIGN §2.3).
+"""Fault injection at instants where CPython can really deliver an asynchronous exception (DESIGN §2.3, §8.6).
 
 Counted injection points are only
-  (a) entry of a Python function defined under numqi/ (`call` event), and
-  (b) loop back-edges inside such a function: the instruction about to execute is a JUMP_BACKWARD of that code object
-      (seen through `opcode` trace events; JUMP_BACKWARD_NO_INTERRUPT is excluded), and
-  (c) the normal return of such a function (`return` event with a value): the eval breaker is checked in the caller right
-      after the CALL instruction, i.e. after every side effect of the callee and before its result is stored.
-These are a subset of the positions where CPython 3.12 services pending signals, so an exception injected there is
-one a real Ctrl-C / MemoryError could produce. `with`-block exits are *not* injection points (see DESIGN §2.3).
+  (a) entry of a Python function defined under numqi/ (PY_START),
+  (b) loop back-edges inside such a function: a JUMP event of a JUMP_BACKWARD instruction of that code object
+      (JUMP_BACKWARD_NO_INTERRUPT does not check the eval breaker and is excluded), and
+  (c) the normal return of such a function (PY_RETURN): the eval breaker is checked in the caller right after the CALL
+      instruction, i.e. after every side effect of the callee and before its result is stored.
+These are a subset of the positions where CPython 3.12 services pending signals, so an exception injected there is one a
+real Ctrl-C / MemoryError could produce. `with`-block exits are *not* injection points (see DESIGN §2.3).
+
+Implementation: sys.monitoring (PEP 669), not sys.settrace. settrace's `line` and `opcode` events are instrumented lazily
+per code object, so the number of events a call produced depended on what the process had traced before (the determinism
+self-test caught 160 vs 161 points for the same call, then 67 vs 93 with opcode events). Global sys.monitoring events are
+active for every code object from the moment they are set, independent of history.
 """
 import dis
 import sys
 
+_M = sys.monitoring
+_TOOL = 4
 _BACKEDGE_CACHE = {}
 
 
 def _backedge_offsets(code):
-    """bytecode offsets of the JUMP_BACKWARD instructions of a code object (JUMP_BACKWARD_NO_INTERRUPT does not check the
-    eval breaker and is excluded). Detected through `opcode` trace events, which fire once per executed instruction and do
-    not depend on the interpreter's line-event bookkeeping (line events turned out to depend on what the process had traced
-    before: the determinism self-test caught a 160-vs-161 point count for the same call in a pristine vs a used process)."""
     r = _BACKEDGE_CACHE.get(code)
     if r is None:
         r = frozenset(ins.offset for ins in dis.get_instructions(code) if ins.opname == 'JUMP_BACKWARD')
@@ -42,46 +45,55 @@ class Injector:
         self.points = 0
         self.fired_at = None
         inj = self
+        armed = [True]
 
-        def hit(frame):
+        def hit(code, offset):
             i = inj.points
             inj.points += 1
-            if k is not None and i == k:
-                inj.fired_at = (frame.f_code.co_filename.split('/numqi/', 1)[-1], frame.f_code.co_name, frame.f_lineno)
-                sys.settrace(None)
+            if k is not None and i == k and armed[0]:
+                armed[0] = False
+                line = None
+                for start, end, ln in code.co_lines():
+                    if start <= offset < end:
+                        line = ln
+                        break
+                inj.fired_at = (code.co_filename.split('/numqi/', 1)[-1], code.co_name, line)
                 raise exc_type('simkit injected fault')
 
-        def global_trace(frame, event, arg):
-            if event != 'call':
-                return None
-            code = frame.f_code
+        def on_start(code, offset):
             if not _is_numqi(code):
-                return None
-            hit(frame)
-            be = _backedge_offsets(code)
-            if be:
-                frame.f_trace_opcodes = True
+                return _M.DISABLE
+            hit(code, offset)
 
-            def local_trace(frame, event, arg):
-                if event == 'opcode':
-                    if frame.f_lasti in be:
-                        hit(frame)
-                elif event == 'return' and arg is not None:
-                    # (c) a numqi function returns normally: CPython checks the eval breaker in the caller right after the
-                    # CALL instruction completes, i.e. after all side effects of the callee and before its value is stored
-                    hit(frame)
-                return local_trace
-            return local_trace
+        def on_return(code, offset, retval):
+            if not _is_numqi(code):
+                return _M.DISABLE
+            hit(code, offset)
 
-        old = sys.gettrace()
-        sys.settrace(global_trace)
+        def on_jump(code, offset, dest):
+            if not _is_numqi(code):
+                return _M.DISABLE
+            if dest < offset and offset in _backedge_offsets(code):
+                hit(code, offset)
+
+        ev = _M.events
+        _M.use_tool_id(_TOOL, 'simkit-faults')
         try:
+            _M.register_callback(_TOOL, ev.PY_START, on_start)
+            _M.register_callback(_TOOL, ev.PY_RETURN, on_return)
+            _M.register_callback(_TOOL, ev.JUMP, on_jump)
+            _M.set_events(_TOOL, ev.PY_START | ev.PY_RETURN | ev.JUMP)
+            _M.restart_events()
             return fn()
         finally:
-            sys.settrace(old)
+            _M.set_events(_TOOL, 0)
+            _M.register_callback(_TOOL, ev.PY_START, None)
+            _M.register_callback(_TOOL, ev.PY_RETURN, None)
+            _M.register_callback(_TOOL, ev.JUMP, None)
+            _M.free_tool_id(_TOOL)
 
     def count(self, fn):
-        """runs fn to completion under the tracer; returns (result, number_of_points)"""
+        """runs fn to completion under the monitor; returns (result, number_of_points)"""
         r = self._run(fn, None, None)
         return r, self.points
 
